@@ -532,7 +532,7 @@ def run(repo: Repo) -> Result:
             if isinstance(s, ast.Expr) and isinstance(s.value, ast.Call) and isinstance(s.value.func, ast.Attribute) and s.value.func.attr in ("union", "intersection", "difference", "symmetric_difference", "replace", "strip", "join"):
                 res.add("C06.R3", repo.key(fi, s), False, f"the result of `{norm(s.value, 60)}` is discarded ({s.value.func.attr} returns a new object, it does not modify the receiver)", f"{fi.relpath}:{s.lineno}", kind="structural")
     # ---- R2 accumulate, never overwrite
-    check_merges(repo, res, interp, set(tails), final_dicts, parse_key, parse_where)
+    check_merges(repo, res, interp, set(tails), set(heads), final_dicts, parse_key, parse_where)
     # ---- R5 declarations with and without alias stay distinct
     implicit = sorted({line for line, _t, _h in dep_forms if decl_records(line)})
     check_records(repo, res, interp, set(aliases), set(names), parse_key, parse_where, implicit[0] if implicit else None)
@@ -588,8 +588,9 @@ def interp_seen(interp: A.Interp) -> set[str]:
 
 
 # -------------------------------------------------------------------------------------------------------------------- R2
-def check_merges(repo: Repo, res: Result, interp: A.Interp, tails: set, final_dicts: list, parse_key: str, parse_where: str) -> None:
-    dep_dicts = {n for n in interp.nodes.values() if isinstance(n, A.Dict) and tails & bases(n.k.prov)}
+def check_merges(repo: Repo, res: Result, interp: A.Interp, tails: set, heads: set, final_dicts: list, parse_key: str, parse_where: str) -> None:
+    # dependor-keyed dicts that hold dependees (a dict from dependor to a position / count is no relation)
+    dep_dicts = {n for n in interp.nodes.values() if isinstance(n, A.Dict) and tails & bases(n.k.prov) and (heads & bases(interp.flat_prov(n.v)) or not n.v.consts and not n.v.top and n.v.refs)}
     dep_dicts |= set(final_dicts)
     events = [e for e in interp.events.values() if e.dicts & dep_dicts]
     per_dict: dict = {}
@@ -752,7 +753,7 @@ def check_tags(repo: Repo, res: Result, parser: ClassInfo, error_cls: ClassInfo,
     elif hard or not subjects or not all(s.subject.concrete for s in subjects):
         res.undecide("C06.R4", construct, f"the text scanned for declarations / arrows is not determined by folding the tag slicing (unmodelled: {interp.unknown[:3]}; may raise: {sorted({r.name for r in hard})})", parse_where)
     else:
-        seen = sorted({v for s in subjects for v in s.subject.values()}, key=repr)
+        seen = sorted({v for s in subjects for v in s.subject.values() if v is not None}, key=repr)
         # the pipeline may scan the text as a whole or line by line: compare the sets of non-blank lines
         want_lines = {l.strip() for l in BODY.splitlines() if l.strip()}
         got_lines = {l.strip() for v in seen if isinstance(v, str) for l in v.splitlines() if l.strip()}
